@@ -74,6 +74,22 @@ partial def parseStmt : List String → Option (Stmt × List String)
     match parsePairs r with
     | some (ps, r1) => some (.define ps, r1)
     | none => none
+  | "(" :: "sw" :: r =>
+    match parseExpr r with
+    | some (e, r1) => match parseStmt r1 with
+      | some (cs, ")" :: r2) => some (.switch e cs, r2)
+      | _ => none
+    | none => none
+  | "(" :: "case" :: v :: r =>
+    match parseStmt r with
+    | some (b, r1) => match parseStmt r1 with
+      | some (rest, ")" :: r2) => some (.swCase (nat! v) b rest, r2)
+      | _ => none
+    | none => none
+  | "(" :: "dflt" :: r =>
+    match parseStmt r with
+    | some (b, ")" :: r1) => some (.swDefault b, r1)
+    | _ => none
   | "brk" :: r => some (.brk, r)
   | "cont" :: r => some (.cont, r)
   | "(" :: "forp" :: r =>
